@@ -79,7 +79,17 @@ func vfC11Gen(rt *rapid.T) *vfC11Case {
 		specs = append(specs, vfworld.ZoneSpec{Apex: "zs.test.", Servers: 1, Owners: owners})
 	}
 	c.W = vfworld.Build(specs)
-	if storm {
+	if storm && rapid.Bool().Draw(rt, "stormsamename") {
+		// the same question from many clients at once, each with a little more of its budget left than the one before
+		// and none with enough for the slow authority - and one client with its whole budget among them: leader after
+		// leader of the shared work expires, and every time the survivor has to be carried on, not failed along
+		n := rapid.IntRange(6, 10).Draw(rt, "stormclients")
+		step := rapid.SampledFrom([]int{50, 80}).Draw(rt, "stormstep")
+		for i := 0; i < n; i++ {
+			c.Clients = append(c.Clients, vfC11Client{Name: "i.zs.test.", Queued: c.Timeout - time.Duration((i+1)*step)*time.Millisecond, Wire: rapid.Bool().Draw(rt, "wire"), EDNS: true})
+		}
+		c.Clients = append(c.Clients, vfC11Client{Name: "i.zs.test.", EDNS: true, Healthy: true, Wire: rapid.Bool().Draw(rt, "wire")})
+	} else if storm {
 		n := rapid.IntRange(5, 8).Draw(rt, "stormclients")
 		for i := 0; i < n; i++ {
 			c.Clients = append(c.Clients, vfC11Client{Name: string(rune('a'+i)) + ".zs.test.", Offset: time.Duration(i*rapid.SampledFrom([]int{0, 5, 40}).Draw(rt, "stormgap")) * time.Millisecond,
